@@ -2,7 +2,7 @@
    [src/ser/mod.rs, src/packets.rs, src/wire.rs, src/types.rs, src/will.rs, src/reason_codes.rs] *)
 From Minimq Require Import Bytes Varint Utf8 Props.
 
-Inductive serr := EMem | ECustom | EPayload.
+Inductive serr := EMem | ECustom | EPay.
 Inductive sres := SOk (n : N) (b : bytes) | SErr (e : serr).
 
 (* A packet body is a list of chunks; `None` marks a point where serialization raises Custom
@@ -44,7 +44,7 @@ Definition encode_chunks_payload (cap : N) (typ flags : N) (cs : list chunk) (pa
   | SErr e => SErr e
   | SOk idx body =>
       let start := N.min idx cap in
-      if cap - start <? lenN payload then SErr EPayload
+      if cap - start <? lenN payload then SErr EPay
       else if sat_sub cap idx <? lenN payload then SErr EMem
       else finalize cap (idx + lenN payload) (body ++ payload) typ flags
   end.
